@@ -204,7 +204,7 @@ def canon(v, model, depth=0):
 
 
 # ------------------------------------------------------------------ can the driver build this input?
-def input_problem(x, depth=0):
+def input_problem(x, depth=0, floats_ok=False):
     """why a concretised input (solve.concretize format) cannot be rebuilt faithfully, or None"""
     if depth > 10:
         return "nesting"
@@ -218,27 +218,57 @@ def input_problem(x, depth=0):
         if "__set__" in x:
             if "members" not in x:
                 return "set-not-finite"
-            return next((p for p in (input_problem(m, depth + 1) for m in x["members"]) if p), None)
+            return next((p for p in (input_problem(m, depth + 1, floats_ok) for m in x["members"]) if p), None)
         if "__map__" in x:
             if "items" not in x:
                 return "dict-not-finite"
-            return next((p for p in (input_problem(m, depth + 1) for kv in x["items"] for m in kv) if p), None)
+            return next((p for p in (input_problem(m, depth + 1, floats_ok) for kv in x["items"] for m in kv) if p), None)
         if "__opaque__" in x:
             return None          # a token: the driver passes an inert object (same id -> same object)
         if "__obj__" in x:
-            return next((p for p in (input_problem(m, depth + 1) for m in x.get("fields", {}).values()) if p), None)
+            return next((p for p in (input_problem(m, depth + 1, floats_ok) for m in x.get("fields", {}).values()) if p), None)
         if "__tuple__" in x:
-            return next((p for p in (input_problem(m, depth + 1) for m in x["__tuple__"]) if p), None)
+            return next((p for p in (input_problem(m, depth + 1, floats_ok) for m in x["__tuple__"]) if p), None)
         if "__unreadable__" in x or "__every_other_key__" in x:
             return "json-dict-not-finite"
-        return next((p for p in (input_problem(m, depth + 1) for m in x.values()) if p), None)
+        return next((p for p in (input_problem(m, depth + 1, floats_ok) for m in x.values()) if p), None)
     if isinstance(x, list):
         if len(x) >= MAX_SEQ:
             return "sequence-too-long"
-        return next((p for p in (input_problem(m, depth + 1) for m in x) if p), None)
+        return next((p for p in (input_problem(m, depth + 1, floats_ok) for m in x) if p), None)
     if isinstance(x, float):
-        return "float"           # reals are not floats (DESIGN 2.2: no rounding is an assumption)
+        return None if floats_ok else "float"           # reals are not floats (DESIGN 2.2: no rounding is an assumption); see reals_exact
     return None
+
+
+def reals_exact(model, consts):
+    """every rational number in the model values of the inputs is a small binary fraction: the float the driver
+    passes IS that number, and sums / differences / comparisons of a few of them are exact in double arithmetic"""
+    stack, seen = [], set()
+    for cz in consts:
+        try:
+            stack.append(model.eval(cz, model_completion=True))
+        except z3.Z3Exception:
+            return False
+    n = 0
+    while stack and n < 100000:
+        e = stack.pop()
+        n += 1
+        if e.get_id() in seen:
+            continue
+        seen.add(e.get_id())
+        if z3.is_quantifier(e):
+            stack.append(e.body())
+            continue
+        if z3.is_rational_value(e) and e.sort().kind() == z3.Z3_REAL_SORT:
+            num, den = e.numerator_as_long(), e.denominator_as_long()
+            if den & (den - 1) or den > (1 << 20) or abs(num) > (1 << 40):
+                return False
+            continue
+        if z3.is_algebraic_value(e):
+            return False
+        stack.extend(e.children())
+    return True
 
 
 def _bytes_constraints(v, out, seen, depth=0):
@@ -262,7 +292,7 @@ def _bytes_constraints(v, out, seen, depth=0):
 
 # ------------------------------------------------------------------ one path -> witness (in the worker)
 
-def trace_in_scope(trace, reg):
+def trace_in_scope(trace, reg, genkey=None):
     """(boundary calls of the path, None) when the native driver can reproduce the events of the path, else (None, reason):
       * a call that was replaced by the callee's contract is fine when the contract says exactly when it raises
         (`raises_exactly`): the real callee runs natively, and the determinacy check below decides whether the
@@ -274,7 +304,7 @@ def trace_in_scope(trace, reg):
     for e in trace:
         name = e[0]
         if name in ("call", "callret"):
-            c2 = reg.contracts.get(e[1][0])
+            c2 = reg.contracts.get(str(e[1][0]).split("[")[0])      # "target[map]": the contract applied element-wise
             if c2 is None:
                 return None, "trace:call(no contract found)"
             if c2.raises:
@@ -297,6 +327,17 @@ def trace_in_scope(trace, reg):
             else:
                 kw = {}
             bc.append((meth, list(e[1][2]), dict(kw)))
+            continue
+        if name == "input" and reg.automat is not None and len(e[1]) >= 4:
+            continue      # log entry of a dispatch through the real transition table: natively the real machine runs
+        if name == "input" and reg.automat is None and getattr(reg, "input_as_boundary", False):
+            # an Automat input of self recorded as an event (returns None): natively the input is replaced by a recorder
+            bc.append((str(e[1][0]), list(e[1][1]), {}))
+            continue
+        if name == "yield" and genkey is not None and len(e[1]) >= 2 and e[1][1] == genkey:
+            # the function under contract is a plain generator: natively it is run to exhaustion, its yields are
+            # compared like boundary calls
+            bc.append(("<yield>", [e[1][0]], {}))
             continue
         return None, "trace:" + str(name)
     return bc, None
@@ -321,15 +362,12 @@ def witness(c, reg, ctx, pr, outcome, unit):
     fd = c.fdef
     if fd is None:
         return None
-    if _is_generator(fd):
-        return skip("generator-function")
-    if reg.automat is not None and fd.cls is not None:
-        mach = reg.automat.machine_of(fd.cls)
-        if mach is not None and fd.qualname.split(".")[-1] in mach.inputs:
-            return skip("automat-input")
-    if "__state" in (c.self_fields or {}):
+    gen = _is_generator(fd)
+    if gen and not (getattr(reg, "lazy_generators", False) and getattr(reg, "yield_model", None) is None):
+        return skip("generator-function")       # `yield` has a modelled meaning (inlineCallbacks): not a plain generator
+    if "__state" in (c.self_fields or {}) and reg.automat is None:
         return skip("automat-state")
-    bcalls, why = trace_in_scope(ctx.trace, reg)
+    bcalls, why = trace_in_scope(ctx.trace, reg, fd.key if gen else None)
     if why:
         return skip(why)
     if ctx.imprecise:
@@ -341,7 +379,7 @@ def witness(c, reg, ctx, pr, outcome, unit):
     types = dict(c.params)
     for f, t in (c.self_fields or {}).items():
         types["self." + f] = t
-    if any("defaultdict" in str(t) or "real" in str(t) or "float" in str(t) or "callable" in str(t) for t in types.values()):
+    if any("defaultdict" in str(t) or "callable" in str(t) for t in types.values()):
         return skip("input-type-not-buildable")
 
     pc = list(ctx.pc)
@@ -369,7 +407,7 @@ def witness(c, reg, ctx, pr, outcome, unit):
         s.add(e)
     r = guarded_check(s, MODEL_TIMEOUT_MS)
     if r != z3.sat:
-        return skip("no-model:" + ("unsat" if r == z3.unsat else "unknown"))
+        return skip("no-model:" + ("path-infeasible" if r == z3.unsat else "unknown"))
     model = s.model()
     for f in pc + extra:
         try:
@@ -379,12 +417,23 @@ def witness(c, reg, ctx, pr, outcome, unit):
         if z3.is_false(val):
             return skip("no-model:invalid")
         if not z3.is_true(val):
-            return skip("no-model:quantified-unverified")
+            # a quantified hypothesis the model evaluation does not decide: it must hold for the model's values of
+            # the symbols it mentions (uninterpreted functions stay free, so a formula over them is not accepted)
+            cs, _ = symbols([f])
+            q = z3.Solver()
+            q.set("timeout", DET_TIMEOUT_MS)
+            for cz in cs.values():
+                q.add(cz == model.eval(cz, model_completion=True))
+            q.add(z3.Not(f))
+            if guarded_check(q, DET_TIMEOUT_MS) != z3.unsat:
+                return skip("no-model:quantified-unverified")
     try:
         inputs = {k: solve.concretize(x, model) for k, x in ctx.inputs.items()}
     except Exception as e:
         return skip("concretize:" + type(e).__name__)
     prob = input_problem(inputs)
+    if prob == "float" and reals_exact(model, in_consts.values()):
+        prob = input_problem(inputs, floats_ok=True)
     if prob:
         return skip("input:" + prob)
 
@@ -454,10 +503,26 @@ def witness(c, reg, ctx, pr, outcome, unit):
         r_ = take("self." + f, v)
         if r_ is not None:
             expect["fields"][f] = r_
+    if selfobj is not None and reg.automat is not None and fd.cls is not None and isinstance(selfobj.fields.get("__state"), VInt):
+        mach = reg.automat.machine_of(fd.cls)
+        st = take("self.__state", selfobj.fields["__state"]) if mach is not None else None
+        if st is not None and 0 <= st["v"] < len(mach.states):
+            expect["state"] = mach.states[st["v"]]
     expect["bcalls"] = [{"m": m, "args": [take(f"{m}(arg{i})", a) for i, a in enumerate(args)], "nkw": len(kw)}
                         for m, args, kw in bcalls]
     notes[:] = [n for n in notes if "(arg" not in n]
-    return {"real_classes": sorted(reg.repo_classes), "decisions": [str(x) for x in unit], "outcome": "return" if outcome == "return" else "raise",
+    machines = {}
+    if reg.automat is not None:
+        for cd in list(reg.repo_classes.values()):
+            try:
+                m_ = reg.automat.machine_of(cd)
+            except Exception:
+                m_ = None
+            if m_ is not None:
+                machines[cd.name] = list(m_.states)
+    return {"real_classes": sorted(reg.repo_classes), "machines": machines,
+            "modelled": sorted(k for k, h in reg.boundary.items() if getattr(h, "__name__", "") != "generic_boundary"),
+            "inputs_recorded": bool(reg.automat is None and getattr(reg, "input_as_boundary", False)), "decisions": [str(x) for x in unit], "outcome": "return" if outcome == "return" else "raise",
             "inputs": inputs, "expect": expect, "notes": notes, "determinacy_checked": need_det}
 
 
@@ -505,6 +570,9 @@ def run_task(c, partials, info):
                      **{"self." + k: str(v) for k, v in (c.self_fields or {}).items()}},
            "lemma": ({"source": c.source_text, "module": c.source_module} if c.source_text else None),
            "real_classes": sorted(set(k for w in wits for k in w.get("real_classes", []))),
+           "inputs_recorded": any(w.get("inputs_recorded") for w in wits),
+           "modelled": sorted(set(k for w in wits for k in w.get("modelled", []))),
+           "machines": {k: v for w in wits for k, v in (w.get("machines") or {}).items()},
            "witnesses": [{"id": w["id"], "inputs": w["inputs"]} for w in wits]}
     native = {}
     err = None
@@ -574,6 +642,8 @@ def run_task(c, partials, info):
             if "result" in exp and w["outcome"] == "return":
                 if n.get("result_ok") and not strict_eq(exp["result"]["v"], n.get("result")):
                     diffs.append({"what": "result", "symbolic": exp["result"]["v"], "native": n.get("result")})
+            if exp.get("state") and n.get("state") and exp["state"] != n["state"]:
+                diffs.append({"what": "machine state of self", "symbolic": exp["state"], "native": n["state"]})
             for f, ev in exp["fields"].items():
                 nf = (n.get("fields") or {}).get(f)
                 if nf is None or not nf.get("ok"):
